@@ -69,7 +69,7 @@ def gather(prop, tier, seed, extra_tasks=()):
             main_obs.append(o2)
     other = [o for o in obs if not o.id.startswith(('SOLVER/', 'MAIN/'))]
     small = []
-    if prop in ('C01', 'C03', 'C04'):
+    if prop in ('C01', 'C03', 'C04', 'C13', 'C20'):
         from . import small_units
         for o in small_units.all_small():
             if prop in o.note.split(','):
